@@ -49,17 +49,26 @@ type SimStorage struct {
 type expiredGet struct {
 	key string
 	seq uint64
+	// earlier: the record "<k>_body" had an earlier expiry than the record "<k>" that was still alive
+	earlier bool
 }
 
 // ExpiredGetBetween reports whether a Get of key path_suffix found an entry
 // with a non-empty value that had expired, within the given event window.
 func (st *SimStorage) ExpiredGetBetween(suffix, path string, from, to uint64) bool {
+	found, _ := st.ExpiredGetBetween2(suffix, path, from, to)
+	return found
+}
+
+// ExpiredGetBetween2 also reports whether the expired "<k>_body" record had been given an earlier
+// expiry than its still-living companion record "<k>".
+func (st *SimStorage) ExpiredGetBetween2(suffix, path string, from, to uint64) (found, earlier bool) {
 	for _, g := range st.expiredGets {
 		if g.key == path+"_"+suffix && g.seq >= from && g.seq <= to {
-			return true
+			return true, g.earlier
 		}
 	}
-	return false
+	return false, false
 }
 
 type simEntry struct {
@@ -119,7 +128,13 @@ func (st *SimStorage) Get(key string) ([]byte, error) {
 	e, ok := st.data[key]
 	if !ok || (e.exp != 0 && e.exp <= CoarseNow()) {
 		if ok && len(e.val) > 0 {
-			st.expiredGets = append(st.expiredGets, expiredGet{key, st.S.Stamp()})
+			earlier := false
+			if base, isBody := strings.CutSuffix(key, "_body"); isBody {
+				if m, ok := st.data[base]; ok && (m.exp == 0 || m.exp > e.exp) {
+					earlier = true
+				}
+			}
+			st.expiredGets = append(st.expiredGets, expiredGet{key, st.S.Stamp(), earlier})
 		}
 		if st.S.Tracing() {
 			st.S.Logf("%s GET %q -> none", st.Name, key)
